@@ -301,6 +301,44 @@ class AxisMappedSource:
         return getattr(self._src, k)
 
 
+class DecoySource:
+    """the same sizes, but every array / scalar under another name: inputs of a DECOY run of a contract's scenario on
+    the same mesh, executed before the real one, so that state a function keeps between calls (a cache with an
+    incomplete key, a module-level accumulator) would leak other data into the run the clauses are stated about"""
+
+    def __init__(self, src, prefix='~'):
+        self._src = src
+        self.prefix = prefix
+        self.symbolic = src.symbolic
+
+    def size(self, a):
+        return self._src.size(a)
+
+    def _name(self, name):
+        return self.prefix + name
+
+    def arr(self, name, shape, kind='real'):
+        return self._src.arr(self._name(name), shape, kind)
+
+    def scalar(self, name):
+        return self._src.scalar(self._name(name))
+
+    @property
+    def np(self):
+        return self._src.np
+
+    @property
+    def values(self):
+        return _NameMappedDict(self._src.values, self._name)
+
+    @property
+    def constraints(self):
+        return _NameMappedDict(self._src.constraints, self._name)
+
+    def __getattr__(self, k):
+        return getattr(self._src, k)
+
+
 class _NameMappedDict:
     def __init__(self, d, fn):
         self.d, self.fn = d, fn
